@@ -44,6 +44,7 @@ type c10Case struct {
 	Callers  int    `json:"concurrent_callers"`
 	Procs    int    `json:"gomaxprocs"`
 	Hook     string `json:"hook,omitempty"`
+	Observer bool   `json:"cancelled_worker_observer,omitempty"`
 }
 
 type c10Log struct {
@@ -207,6 +208,11 @@ func c10Run(r *kit.Run, idx int64, c c10Case, rng *rand.Rand) {
 			kind, problem = k, s
 		}
 	}
+	// a second kind of observer: Service.Worker()(ctx) on the running
+	// service, whose own context is cancelled while the service keeps
+	// running. It returns early (its contract); the Wait callers must not.
+	c.Observer = blocks && c.When == "after-start-returned" && c.Run != phAbsent && rng.IntN(3) == 0
+	obsDelay, obsAfter := 10+rng.IntN(40), rng.IntN(30)
 	body := func() {
 		if c.When == "before-start-returned" {
 			// the end stimulus races the start
@@ -234,7 +240,7 @@ func c10Run(r *kit.Run, idx int64, c c10Case, rng *rand.Rand) {
 					s.Close() // concurrent Close callers; a no-op unless the service runs
 				}
 				// Wait is judged when invoked after a nil Start has returned
-				for i := 0; !nilStartReturned.Load() && i < 1_000_000; i++ {
+				for !nilStartReturned.Load() && startsReturned.Load() < int64(c.Callers) {
 					kit.Yields(1)
 				}
 				waitRes[k] = s.Wait()
@@ -244,6 +250,17 @@ func c10Run(r *kit.Run, idx int64, c c10Case, rng *rand.Rand) {
 		// the end stimulus after every Start has returned (repeated for the
 		// "before" timing: a Close that raced the start may have been a no-op)
 		kit.WaitUntil(c10Watchdog/4, func() bool { return startsReturned.Load() == int64(c.Callers) })
+		if c.Observer {
+			octx, ocancel := context.WithCancel(context.Background())
+			od := make(chan struct{})
+			go func() { defer close(od); _ = s.Worker()(octx) }()
+			kit.Yields(obsDelay)
+			ocancel()
+			if met, q, cs := kit.Await(c10Watchdog/4, c10Watchdog, func() bool { return isClosed(od) }); !met && q {
+				note("worker-ignores-its-context", fmt.Sprintf("Service.Worker() did not return after its context was cancelled; at quiescence: %v", cs.Describe()))
+			}
+			kit.Yields(obsAfter)
+		}
 		endStimulus()
 		d := make(chan struct{})
 		go func() { wg.Wait(); close(d) }()
